@@ -14,6 +14,9 @@ A case is a program of scripted handlers on one root component plus a top-level 
                                           after run() has returned in the checking thread (controlled pre-emption:
                                           a wrapper around manager.fire parks exactly that thread; bounded waits are
                                           liveness guards only)
+   'mid': [None | ['s', code]]             one entry per generate_events fired by tick(): ['s', code] = a second
+                                          thread's whole stop(code) lands between tick()'s `if self._running` and
+                                          that fire (the harness' manager.fire wrapper is the hook)
    'ops': [['run'] | ['stop', code] | ['setrun'] | ['fire', n] | ['flush'] | ['len']]}
   body: {'t': 'p', 'a': [act...], 'r': res}   plain handler
         {'t': 'g', 's': [[[act...], res], ...]}  generator handler, one entry per next()
@@ -141,6 +144,7 @@ class BlockingVEvent:
             if pre.get('idle_tick') is None:      # the counting run: this tick is the one that goes idle
                 pre['idle_tick'] = c.ticks
                 pre['nlines'] = pre['count']
+                pre['ntop'] = pre['count_top']
         inf = not (timeout is not None and timeout < 1000)
         c.log.append([7, inf])
         if pre.get('pending_release'):
@@ -172,6 +176,7 @@ class Driver:
         self.ndisp = 0
         self.late = None
         self.pre = None
+        self.mid = [None if m is None else list(m) for m in case.get('mid', [])]
         self.hung = False
         self.serial = 0
         self.fired = {}
@@ -255,14 +260,25 @@ class Driver:
             if pre is not None and pre['injected'] and not pre.get('pending_release'):
                 pre['armed'] = False
             if pre is not None and not pre['injected'] and pre.get('nlines') is None:
+                if pre['k'] is None and pre['armed']:       # counting run: the previous tick did not go idle
+                    pre['per_tick'].append(pre['count_top'])
                 if pre['k'] is None or drv.ticks == pre['tick']:
                     pre['armed'] = True       # count / pre-empt the line events of this tick
                     pre['count'] = 0
+                    pre['count_top'] = 0
             return orig_tick(*a, **kw)
         app.tick = tick
+        drv.tick_wrapper_code = tick.__code__
         orig_fire = app.fire
 
         def fire(event, *channels, **kw):
+            if (drv.mid and getattr(event, 'name', None) == 'generate_events'
+                    and (drv.late is None or threading.current_thread() is not drv.late['thread'])):
+                # tick() has tested `self._running` and is about to fire generate_events: a second thread's whole
+                # stop(code) lands exactly here
+                m = drv.mid.pop(0)
+                if m is not None:
+                    drv.do_stop(1, m[1])
             L = drv.late
             mine = (L is not None and not L['parked'] and threading.current_thread() is L['thread']
                     and getattr(event, 'name', None) == 'stopped')
@@ -479,8 +495,12 @@ def make_tracer(drv):
             if pre.get('pending_release') and not lock_owned(drv.app):
                 pre['pending_release'] = False
                 drv.finish_late()
+            top = frame.f_back is not None and frame.f_back.f_code is drv.tick_wrapper_code    # tick() itself
             pre['count'] += 1
-            if pre['k'] is not None and not pre['injected'] and pre['count'] == pre['k']:
+            if top:
+                pre['count_top'] += 1
+            hit = (pre['count'] == pre['k']) if pre['scope'] == 'all' else (top and pre['count_top'] == pre['k'])
+            if pre['k'] is not None and not pre['injected'] and hit:
                 pre['injected'] = True
                 pre['where'] = '%s+%d' % (frame.f_code.co_name, frame.f_lineno - frame.f_code.co_firstlineno)
                 if lock_owned(drv.app):
@@ -544,24 +564,44 @@ def run_case(case, pre=None):
 
 
 def run_preempt(case):
-    """'kind': 'preempt' -- one counting run (stop arrives at the idle wait), then one run per line event of the run
-    thread between entering tick() of the tick that goes idle and entering the wait, with a second thread's
-    stop(code) placed right before that line.  Oracle only (the model has no wake-up handshake)."""
-    def fresh(k, tick):
-        return {'k': k, 'tick': tick, 'code': case.get('code'), 'armed': False, 'count': 0, 'injected': False}
-    pre0 = fresh(None, None)
+    """'kind': 'preempt' -- oracle only (the model has no wake-up handshake).  One counting run (the stop arrives at
+    the idle wait) finds the tick T that goes idle.  Then one fresh run per placement of a second thread's whole
+    stop(code) right before a line event of the run thread:
+      * every line event (any circuits/core frame) between entering tick() of tick T and entering the wait,
+        with the case's code;
+      * every line event of tick() itself (the frame called by the harness' wrapper: task loop, `_running` test,
+        fire(generate_events), queue test, flush) in EVERY tick 1..T -- first tick, busy ticks, idle tick --
+        with stop() and with stop(code)."""
+    code = case.get('code')
+    other = 3 if code is None else None
+
+    def fresh(k, tick, scope, c):
+        return {'k': k, 'tick': tick, 'scope': scope, 'code': c, 'armed': False, 'count': 0, 'count_top': 0,
+                'injected': False, 'per_tick': []}
+    pre0 = fresh(None, None, 'all', code)
     base = run_case(case, pre0)
-    n, tick = pre0.get('nlines') or 0, pre0.get('idle_tick')
-    scen = [{'k': 0, 'where': 'idle wait', 'log': base['log'], 'marks': base['marks'], 'runaway': base['runaway'],
-             'hung': base['hung']}]
-    for k in range(1, n + 1):
-        pre = fresh(k, tick)
+    n, tick = pre0.get('nlines') or 0, pre0.get('idle_tick') or 0
+    tops = list(pre0['per_tick'][:max(tick - 1, 0)]) + [pre0.get('ntop') or 0]
+    scen = [{'k': 0, 'tick': tick, 'scope': 'wait', 'code': code, 'where': 'idle wait', 'log': base['log'],
+             'marks': base['marks'], 'runaway': base['runaway'], 'hung': base['hung']}]
+    plan = [(tick, 'all', k, code) for k in range(1, n + 1)] if case.get('scope') != 'top' else []
+    for t, nt in enumerate(tops, 1):
+        for k in range(1, nt + 1):
+            plan.append((t, 'top', k, other))
+            if t != tick:
+                plan.append((t, 'top', k, code))
+    nhung = 0
+    for t, scope, k, c in plan:
+        if nhung >= 4:
+            break           # enough evidence; every further hang costs a whole guard interval
+        pre = fresh(k, t, scope, c)
         o = run_case(case, pre)
-        scen.append({'k': k, 'where': pre.get('where', '?'), 'split': bool(pre.get('split')), 'log': o['log'],
-                     'marks': o['marks'], 'runaway': o['runaway'], 'hung': o['hung'],
-                     'injected': pre['injected'] and 'where' in pre})
-    return {'kind': 'preempt', 'nlines': n, 'idle_tick': tick, 'scen': scen, 'log': [], 'marks': [], 'sched': [],
-            'runaway': any(x['runaway'] for x in scen)}
+        scen.append({'k': k, 'tick': t, 'scope': scope, 'code': c, 'where': pre.get('where', '?'),
+                     'split': bool(pre.get('split')), 'log': o['log'], 'marks': o['marks'], 'runaway': o['runaway'],
+                     'hung': o['hung'], 'injected': 'where' in pre})
+        nhung += bool(o['hung'])
+    return {'kind': 'preempt', 'nlines': n, 'idle_tick': tick, 'tops': tops, 'scen': scen, 'log': [], 'marks': [],
+            'sched': [], 'runaway': any(x['runaway'] for x in scen)}
 
 
 # ----------------------------------------------------------------------------- Coq emission
@@ -787,18 +827,57 @@ class Gen:
         ops += [['flush'], ['len']]
         return {'h': sorted([k, v] for k, v in h.items() if v), 'ext': ext, 'ops': ops, 'place': 'early-stop'}
 
+    def mid_script(self):
+        r = self.rng
+        j = r.choice([0, 0, 1, 1, 2, 3, 5])
+        return [None] * j + [['s', r.choice(CODES)]] + ([['s', r.choice(CODES)]] if r.random() < 0.2 else [])
+
+    def mid_stop(self):
+        """a second thread's whole stop(code) lands in tick() between the `_running` test and fire(generate_events);
+        mostly programs whose handlers fire nothing afterwards (generate_events then comes last in its batch with an
+        empty queue on a stopped manager)"""
+        r = self.rng
+        h = {}
+        quiet = r.random() < 0.7
+        n = r.choice([0, 0, 1, 2, 3])                 # started -> e0 -> e1 ... chain of n events
+        if r.random() < 0.6 or n:
+            h[0] = [{'t': 'p', 'a': [['f', 0, 0]] if n else [], 'r': ['r']}]
+        for i in range(n):
+            h[10 + i] = [{'t': 'p', 'a': [['f', 0, i + 1]] if i + 1 < n else [], 'r': ['r']}]
+        if r.random() < 0.6:
+            h[1] = [{'t': 'p', 'a': [] if quiet else [['f', 0, 4]], 'r': ['r']}]
+        if not quiet and r.random() < 0.5:
+            h[14] = [self.body(NUSER, p_exc=0.1)]
+        mid = [None] * r.randint(0, n + 1) + [['s', r.choice(CODES)]]
+        cycles = r.choice([1, 1, 2])
+        ops = []
+        for i in range(cycles):
+            ops += [['run'], ['len']]
+            if i:
+                mid += [None] * r.randint(0, 2) + [['s', r.choice(CODES)]]
+        ops += [['flush'], ['len']]
+        return {'h': sorted([k, v] for k, v in h.items() if v), 'ext': [], 'mid': mid, 'ops': ops, 'place': 'mid-stop'}
+
     def preempt(self):
         """a tiny program whose loop goes idle; the second thread's stop(code) is placed before every line event
         of the run thread in the tick that goes idle (see run_preempt)"""
         r = self.rng
         h = {}
-        v = r.choice([0, 1, 2])
-        if v >= 1:
+        v = r.choice([0, 1, 2, 3, 4])
+        if v in (1, 2):
             h[1] = [{'t': 'p', 'a': [['f', 0, 0]], 'r': ['r']}]       # stopped fires e0 (must still be dispatched)
             h[10] = [{'t': 'p', 'a': [], 'r': ['r']}]
         if v == 2:
             h[0] = [{'t': 'p', 'a': [['f', 0, 1]], 'r': ['r']}]       # the idle tick is not the first one
             h[11] = [{'t': 'p', 'a': [], 'r': ['r']}]
+        if v == 3:                                                    # handlers that fire nothing
+            h[0] = [{'t': 'p', 'a': [], 'r': ['r']}]
+            h[1] = [{'t': 'p', 'a': [], 'r': ['r']}]
+        if v == 4:                                                    # busy ticks before the idle one, quiet handlers
+            h[0] = [{'t': 'p', 'a': [['f', 0, 1]], 'r': ['r']}]
+            h[11] = [{'t': 'p', 'a': [['f', 0, 2]], 'r': ['r']}]
+            h[12] = [{'t': 'p', 'a': [], 'r': ['r']}]
+            h[1] = [{'t': 'p', 'a': [], 'r': ['r']}]
         return {'kind': 'preempt', 'h': sorted([k, b] for k, b in h.items()), 'ext': [], 'code': r.choice(CODES),
                 'ops': [['run'], ['len']], 'place': 'preempt'}
 
@@ -846,7 +925,7 @@ class C08(Prop):
     def generate(self, rng, n, tier):
         g = Gen(rng)
         out = []
-        npre = 1 if tier == "quick" else 12
+        npre = 0 if tier == "quick" else 12     # quick: the four corpus programs
         for i in range(n):
             if i < npre:
                 c = g.preempt()
@@ -854,7 +933,10 @@ class C08(Prop):
                 self.stats['place'][c['place']] = self.stats['place'].get(c['place'], 0) + 1
                 continue
             x = rng.random()
-            c = g.manual() if x < 0.08 else g.late_chain() if x < 0.18 else g.early_stop() if x < 0.24 else g.case()
+            c = (g.manual() if x < 0.08 else g.late_chain() if x < 0.18 else g.early_stop() if x < 0.24
+                 else g.mid_stop() if x < 0.31 else g.case())
+            if c['place'] not in ('manual', 'mid-stop') and rng.random() < 0.12:
+                c['mid'] = g.mid_script()
             out.append(c)
             self.stats['place'][c['place']] = self.stats['place'].get(c['place'], 0) + 1
             self.stats['runs'] += sum(1 for o in c['ops'] if o[0] == 'run')
@@ -877,7 +959,8 @@ class C08(Prop):
         sc = '[%s]' % '; '.join('[%s]%%nat' % ';'.join(str(g) for g in e) for e in sched)
         xs = '[%s]' % '; '.join(c_x(x) for x in case.get('ext', []))
         ops = '[%s]' % '; '.join(c_op(o) for o in case['ops'])
-        return 'obs_case %s %s %s %s' % (hs, sc, xs, ops)
+        ms = '[%s]' % '; '.join('None' if m is None else '(Some %s)' % c_code(m[1]) for m in case.get('mid', []))
+        return 'obs_case %s %s %s %s %s' % (hs, sc, xs, ms, ops)
 
     def safe_impl(self, case):
         obs = Prop.safe_impl(self, case)
@@ -900,8 +983,10 @@ class C08(Prop):
             out_ = []
             for sc in obs['scen']:
                 for idx, t in self.complaints(case, sc):
-                    out_.append((idx, 'stop(%r) by a second thread right before line event #%d (%s) of the tick that '
-                                      'goes idle: %s' % (case.get('code'), sc['k'], sc['where'], t)))
+                    out_.append((idx, 'stop(%r) by a second thread right before line event #%d (%s%s) of tick %d '
+                                      '(tick %d goes idle): %s' % (sc.get('code'), sc['k'], sc['where'],
+                                                                   ', lines of tick() only' if sc.get('scope') == 'top' else '',
+                                                                   sc.get('tick', 0), obs['idle_tick'], t)))
             return out_
         out_ = []
         log = obs['log']
@@ -1000,7 +1085,8 @@ class C08(Prop):
     def search(self, rng, tier):
         g = Gen(rng)
         return [g.preempt() for _ in range(3)] + [
-            g.late_chain() if i % 4 == 0 else g.early_stop() if i % 4 == 1 else g.case() for i in range(1500)]
+            g.late_chain() if i % 5 == 0 else g.early_stop() if i % 5 == 1 else g.mid_stop() if i % 5 == 2 else g.case()
+            for i in range(1500)]
 
 
 if __name__ == '__main__':
